@@ -20,5 +20,5 @@ for id in $IDS; do
   git -C "$REPO" checkout -q -- .
 done
 # leave the Gen files of the unchanged tree behind
-python3 tools/fpextract.py "$REPO" lean/Fpdec/Gen/Consts.lean >/dev/null; python3 tools/fpsites.py "$REPO" lean/Fpdec/Gen/Sites.lean >/dev/null
-cat seedresults/*.txt > seedresults/SUMMARY.txt
+python3 tools/fpextract.py "$REPO" lean/Fpdec/Gen/Consts.lean >/dev/null; python3 tools/fpsites.py "$REPO" lean/Fpdec/Gen/Sites.lean >/dev/null; python3 tools/fpkernels.py "$REPO" lean/Fpdec/Gen >/dev/null
+ls seedresults/*.txt | grep -v SUMMARY | xargs cat > seedresults/SUMMARY.tmp; mv seedresults/SUMMARY.tmp seedresults/SUMMARY.txt
